@@ -74,6 +74,8 @@ def _work(job):
     idx, text, timeout_ms, both = job
     r, info, dt = _z3_check(text, timeout_ms, True, ematch=True)
     backend = 'z3-ematch'
+    if both == 'fast':
+        return idx, r, info, dt, backend
     candidate = None
     if r == 'candidate':
         candidate = info
@@ -102,7 +104,9 @@ def _work(job):
     return idx, r, info, dt, backend
 
 
-def discharge(obligations, timeout_ms=10000, both=False, procs=None):
+def discharge(obligations, timeout_ms=10000, both=False, procs=None, fast=False):
+    if fast:
+        both = 'fast'
     """Returns list of dict(name, status, info, time, backend) aligned with obligations."""
     jobs = []
     for i, ob in enumerate(obligations):
